@@ -40,9 +40,17 @@ class Impl:
         self.cancel_log = []
         outer = self
 
+        # members the *library* has asked to cancel (the harness's own cancels - actions X and K,
+        # teardown - are made with `by_harness` set); decides, from behaviour, whether the group
+        # had already begun stopping when the joiner was cancelled (F11) - no library names
+        self.by_harness = False
+        self.group_cancelled = set()
+
         class LoggingTask(asyncio.Task):
             def cancel(self, msg=None):
                 outer.cancel_log.append(self)
+                if not outer.by_harness:
+                    outer.group_cancelled.add(self)
                 return super().cancel(msg)
 
         self.loop.set_task_factory(lambda loop, coro, **kw: LoggingTask(coro, loop=loop, **kw))
@@ -108,7 +116,9 @@ class Impl:
 
     def drop(self, j):
         t = self.task.pop(j)
+        self.by_harness = True
         t.cancel()
+        self.by_harness = False
         self.status.pop(j, None)
         self.daemon.pop(j, None)
 
@@ -183,6 +193,8 @@ class Impl:
         self.cancel_log = []
         k = a[0]
         pre_wait = self.joiner_waits_in()
+        # the group is awaiting members it has cancelled (its clean-up sweep is under way)
+        pre_sweep = any(not t.done() for t in self.group_cancelled)
         if k == 'S':
             try:
                 self.mk(a[1], a[2], a[3])
@@ -193,7 +205,9 @@ class Impl:
             self.gate[a[1]].set_result(a[2])
         elif k == 'X':
             self.ext_cancelled.add(a[1])
+            self.by_harness = True
             self.task[a[1]].cancel()
+            self.by_harness = False
         elif k == 'Y':
             self.gate2[a[1]].set_result(None)
         elif k in ('J', 'E'):
@@ -203,7 +217,9 @@ class Impl:
         elif k == 'K':
             if self.join_state == 'active':
                 self.join_state = 'cancelled'
+            self.by_harness = True
             self.joiner.cancel()
+            self.by_harness = False
         elif k == 'N':
             self.consumers[a[1]] = self.loop.create_task(self._nextdone(a[1]))
             self.idle()
@@ -223,6 +239,7 @@ class Impl:
             'done': frozenset(i for i, t in self.task.items() if t.done()),
             'perm': perm,
             'pre_wait': pre_wait,
+            'pre_sweep': pre_sweep,
         }
         return rec
 
